@@ -17,6 +17,9 @@ weakref_to = z3.Function("weakref_to", U, U)
 DAEMON_KEY = box_str(z3.StringVal("Pyro.Daemon"))
 
 
+uri_object_of = z3.Function("object_id_the_uri_of_this_id_designates", U, U)     # URI("PYRO:<id>@<location>").object, boxed
+
+
 def new_attrs(st):
     a = st.new_obj("attr_state")
     for n in ATTRS:
@@ -227,6 +230,15 @@ class _RegBase(Contract):
 def uri_for_decl(E, st, args, kw):
     s2, s3 = st.fork(), st.fork()
     u = st.new_obj("Pyro5.core.URI", for_id=args[1])
+    try:
+        t = uri_object_of(box(args[1]))
+        idb = box(args[1])
+        ueq = z3.Function("u_eq", U, U, BoolS)
+        st.assume(str_box(t), is_str(t), str_box(idb), *box_facts(args[1]))                                # (URI.object is a str; boxing is injective)
+        st.assume(z3.Implies(is_str(idb), z3.And(ueq(t, idb) == (t == idb), ueq(idb, t) == (t == idb))))   # == between two str objects is equality of their text
+        st.set(u, "object", VOpaque(t))      # the object id the uri's text form designates (C19 has the parser's contract)
+    except Unsupported:
+        pass
     st.event("uriFor", args[1])
     out = [Res(st, u), E.raise_(s3, "Pyro5.errors.PyroError")]
     if not isinstance(args[1], VStr):
@@ -274,6 +286,8 @@ class Register(_RegBase):
                  z3.And(p1, z3.If(self.weak, z3.And(is_weakref(v1), D.deref(v1) == o), v1 == o))),
                 ("every other id is untouched", z3.Implies(KSTAR != k, same_entry(old, st, self.d, KSTAR))),
                 ("an id already in use is taken over only when forced", z3.Implies(p0k, self.force)),
+                ("the daemon's own object is never replaced: its id is not available for registration, forced or not", k != DAEMON_KEY),
+                ("the registered id is the id the returned uri (and every proxy made from it) designates", uri_object_of(k) == k),
                 ("the uri handed back is the one for that id", z3.BoolVal(isinstance(result, VObj) and result.cls == "Pyro5.core.URI")),
                 ("a class is never registered weakly", z3.Not(z3.And(is_class(o), self.weak))),
                 ("the object's id and daemon attributes come together", self.pair_invariant(st, o))]
@@ -309,7 +323,10 @@ class Register(_RegBase):
                 ("... and leaves the object's id and daemon attributes alone", same_attrs(old, st, self.obj.e, ("_pyroId", "_pyroDaemon")))]
 
     def x_refused(self, E, old, st, a, exc):
-        return self.unchanged(old, st) + [("refused only when not forced", z3.Not(self.force))]
+        ev = [e for e in st.events if e[0] == "uriFor"]
+        asked = box(ev[0][1]) if ev else U_NONE
+        return self.unchanged(old, st) + [("refused only when not forced, or for the daemon's own id, or for an id the uri would not designate",
+                                           z3.Or(z3.Not(self.force), asked == DAEMON_KEY, uri_object_of(asked) != asked))]
 
     def x_type(self, E, old, st, a, exc):
         # (weak=True on an object that cannot be weakly referenced fails after the id attributes were set: the registry is untouched,
